@@ -494,11 +494,15 @@ func (s *ReceiveStream) getControlFrame(now monotime.Time) (_ ackhandler.Frame, 
 	}
 
 	s.queuedMaxStreamData = false
+	offset := s.flowController.GetWindowUpdate(now)
+	if offset == 0 {
+		// The update was queued by Read, but the final size became known before the frame
+		// was packed: there's nothing to advertise any more. Don't send MAX_STREAM_DATA{0},
+		// which would advertise a lower limit than before.
+		return ackhandler.Frame{}, false, false
+	}
 	return ackhandler.Frame{
-		Frame: &wire.MaxStreamDataFrame{
-			StreamID:          s.streamID,
-			MaximumStreamData: s.flowController.GetWindowUpdate(now),
-		},
+		Frame: &wire.MaxStreamDataFrame{StreamID: s.streamID, MaximumStreamData: offset},
 	}, true, false
 }
 
